@@ -103,8 +103,27 @@ def observe(b):
                 probs=[float(p) for p in np.asarray(b.probabilities)], overhead=float(b.overhead))
 
 
+def obs_finite(o):
+    return ("crashed" not in o) and all(math.isfinite(x) for x in list(o["coeffs"]) + list(o["probs"]) + [o["kappa"], o["overhead"]])
+
+
+BAD_OBS = ([], Raw("(fl 0 0)"), [], Raw("(fl 0 0)"))  # matches no model output: the case is then judged
+
+
 def coq_obs(o):
+    if not obs_finite(o):
+        return BAD_OBS
     return ([qf(c) for c in o["coeffs"]], qf(o["kappa"]), [qf(p) for p in o["probs"]], qf(o["overhead"]))
+
+
+def guarded(fn, case):
+    """Run an implementation driver; an exception of the implementation becomes a recorded outcome."""
+    try:
+        return fn(case)
+    except Exception as e:  # noqa: BLE001
+        case = dict(case)
+        case["impl"] = dict(crashed=f"{type(e).__name__}: {str(e)[:200]}")
+        return case
 
 
 def theta_prime(name, theta):
@@ -196,6 +215,18 @@ def near_special(rng, n):
         base = int(rng.integers(-16, 17)) * PI / 2
         eps = float(rng.choice([1e-3, 1e-4, 7e-5, 3e-5, 1e-5, 1e-6, 1e-7, 1e-9])) * float(rng.choice([-1, 1]))
         out.append(base + eps)
+    return out
+
+
+NEAR_DELTAS = [s * d for d in (1e-2, 3e-3, 1e-3, 1e-4, 1e-6, 1e-9) for s in (1, -1)]
+
+
+def near_grid(per_k, shift=0):
+    """theta = k*pi/2 + delta, k = -16..16; per_k of the 12 deltas for each k, rotating so that all are covered."""
+    out = []
+    for k in range(-16, 17):
+        for j in range(per_k):
+            out.append(k * PI / 2 + NEAR_DELTAS[(shift + (k + 16) * per_k + j) % len(NEAR_DELTAS)])
     return out
 
 
@@ -304,6 +335,41 @@ def run_basis(case):
     return case
 
 
+def _try_obs(f):
+    try:
+        return observe(f())
+    except Exception as e:  # noqa: BLE001
+        return dict(crashed=f"{type(e).__name__}: {str(e)[:200]}")
+
+
+def run_sequence(case):
+    """Build basis A, read it, edit A.coeffs[k] in place, reassign A.coeffs through the setter, then build the
+    target bases afresh.  The in-place edit is undone at the end (on the very list object that was edited)."""
+    sc = case["script"]
+    a = QPDBasis.from_instruction(mk_gate(sc["a_name"], sc["a_theta"]))
+    before = observe(a)
+    lst = a.coeffs
+    inplace, old = "no", None
+    try:
+        old = lst[sc["k"]]
+        lst[sc["k"]] = sc["x"]
+        inplace = "edited"
+    except TypeError:
+        inplace = "immutable"
+    except IndexError:
+        inplace = "index"
+    try:
+        a.coeffs = list(sc["newvec"])
+        reassigned = _try_obs(lambda: a)
+        fresh = [_try_obs(lambda t=t: QPDBasis.from_instruction(mk_gate(t["name"], t["theta"]))) for t in case["targets"]]
+    finally:
+        if inplace == "edited":
+            lst[sc["k"]] = old
+    case = dict(case)
+    case["impl"] = dict(before=before, inplace=inplace, reassigned=reassigned, fresh=fresh)
+    return case
+
+
 # ------------------------------------------------------------------------------------------------
 # generation
 # ------------------------------------------------------------------------------------------------
@@ -332,7 +398,7 @@ def generate(rng, tier, outdir):
 
     # ---------------- named ----------------
     def add_named(name, theta, c, s, sub):
-        case = run_named(dict(kind="named", name=name, theta=theta, sub=sub))
+        case = guarded(run_named, dict(kind="named", name=name, theta=theta, sub=sub))
         aff = AFF.get(name)
         w.add("named", "chk_named",
               (Raw(f'"{name}"'), Opt((Qc(aff[0]), Qc(aff[1]))) if aff else Opt(None), qq(c), qq(s), coq_obs(case["impl"])),
@@ -342,10 +408,13 @@ def generate(rng, tier, outdir):
         v = judge(case)
         w.count("named.judge", "violates" if v["violates"] else "ok")
 
-    for name in PARAM:
+    for ni, name in enumerate(PARAM):
         p, _ = AFF[name]
-        angles = [(t, "special") for t in special_angles()] + [(t, "near") for t in near_special(rng, n_near)] \
-            + [(t, "random") for t in random_angles(rng, n_rand)]
+        # the structured near-special grid first: should the model be unusable (a fact could not be extracted),
+        # the first judged mismatches are then the informative ones
+        angles = [(t, "neargrid") for t in near_grid(4 if quick else 12, shift=5 * ni)] \
+            + [(t, "near") for t in near_special(rng, n_near)] \
+            + [(t, "random") for t in random_angles(rng, n_rand)] + [(t, "special") for t in special_angles()]
         for theta, sub in angles:
             tp = theta_prime(name, theta)
             add_named(name, theta, fr(math.cos(tp)), fr(math.sin(tp)), sub)
@@ -366,7 +435,12 @@ def generate(rng, tier, outdir):
 
     # ---------------- KAK path: documented families ----------------
     def add_kak(case, fam_kind=None, fam_sin=None):
-        case = run_kak(case)
+        case = guarded(run_kak, case)
+        if "crashed" in case["impl"]:
+            w.add("kak", "chk_kak", ([], [], [], [], BAD_OBS), dict(case, kind="kak"), nontrivial=False,
+                  key=("kak", len(w.groups.get("kak", {}).get("cases", []))))
+            w.count("kak.gate", "crashed")
+            return case
         info = case["oracle"]
         w.add("kak", "chk_kak", coq_kak_case(info, case["impl"]), dict(case, kind="kak"),
               nontrivial=True, key=("kak", len(w.groups.get("kak", {}).get("cases", []))))
@@ -381,7 +455,8 @@ def generate(rng, tier, outdir):
                 ok = abs(a - b) <= 1e-9 and abs(c) <= 1e-9 and abs(abs(math.sin(2 * a)) - abs(fam_sin)) <= 1e-9
             w.contract("O-KAK: Weyl coordinates of rzx / xx_plus_yy / xx_minus_yy as documented", ok)
             fc = dict(case, kind="kakfam")
-            w.add("kakfam", "chk_kak_family", (fam_kind, qf(fam_sin), qf(case["impl"]["kappa"])), fc,
+            kq = qf(case["impl"]["kappa"]) if math.isfinite(case["impl"]["kappa"]) else Raw("(fl 0 0)")
+            w.add("kakfam", "chk_kak_family", (fam_kind, qf(fam_sin), kq), fc,
                   nontrivial=True, key=repr((case["gate"], case["theta"], case.get("beta"))))
             w.count("kakfam.judge", "violates" if judge(fc)["violates"] else "ok")
         return case
@@ -417,6 +492,8 @@ def generate(rng, tier, outdir):
             else:
                 c, s = Fraction(0), Fraction(0)
             cc = dict(case, kind="conj")
+            if "crashed" in case["impl"] or not math.isfinite(case["impl"]["kappa"]):
+                continue  # already recorded (and judged) in the kak group
             w.add("conj", "chk_conj", (Raw(f'"{name}"'), qq(c), qq(s), qf(case["impl"]["kappa"])), cc,
                   nontrivial=True, key=repr((name, theta, r)))
             w.count("conj.name", name)
@@ -429,6 +506,8 @@ def generate(rng, tier, outdir):
             U = rand_local(rng) @ _exp_nonlocal(*(float(x) for x in rng.uniform(-1e-4, 1e-4, size=3))) @ rand_local(rng)
         case = dict(gate="unitary", matrix=mat_json(U), twin=dict(left=mat_json(rand_local(rng)), right=mat_json(rand_local(rng))))
         case = add_kak(case)
+        if "crashed" in case["impl"]:
+            continue
         w.count("kak.twin.judge", "violates" if judge(dict(case, kind="kak"))["violates"] else "ok")
 
     # ---------------- basis invariants ----------------
@@ -469,6 +548,54 @@ def generate(rng, tier, outdir):
         w.count("basis.refused_reassignments", sum(1 for s in steps[1:] if s["refused"]))
         w.count("basis.judge", "violates" if judge(case)["violates"] else "ok")
 
+    # ---------------- sequences: edits of one basis must not leak into fresh bases ----------------
+    # (last stream; every script undoes its in-place edit, so a list shared by a mutated tree is repaired)
+    all_names = ["cx", "cy", "cz", "ch", "ecr", "move"] + [n for n in list(PARAM) + list(FIXED)
+                                                             if n not in ("cx", "cy", "cz", "ch", "ecr", "move")]
+    n_seq = 40 if quick else 400
+    for it in range(n_seq):
+        a_name = all_names[it % len(all_names)] if it < 2 * len(all_names) else str(rng.choice(all_names))
+        a_theta = float(rng.uniform(-8 * PI, 8 * PI)) if a_name in PARAM else None
+        ncoef = {"move": 8, "swap": 58, "iswap": 58, "dcx": 58}.get(a_name, 6)
+        script = dict(a_name=a_name, a_theta=a_theta, k=int(rng.integers(0, ncoef)),
+                      x=float(rng.choice([0.0, -0.25, 2.0, 0.125])), newvec=dyadic_vec(rng, ncoef))
+        others = [str(n) for n in rng.choice([n for n in all_names if n != a_name], size=2, replace=False)]
+        fam = [n for n in ("cx", "cy", "cz", "ch", "ecr") if n != a_name] if a_name in ("cx", "cy", "cz", "ch", "ecr") else []
+        targets = [a_name] + others + fam[:2]
+        res = guarded(run_sequence, dict(kind="seq", script=script,
+                                         targets=[dict(name=t, theta=(a_theta if t == a_name else (float(rng.uniform(-8 * PI, 8 * PI)) if t in PARAM else None)))
+                                                  for t in targets]))
+        if "crashed" in res.get("impl", {}):
+            w.add("sequence.reassigned", "chk_basis", ([2], [qf(1.0)], [], [(False, Opt(BAD_OBS))]),
+                  dict(res, kind="seq_reassigned"), nontrivial=False)
+            w.count("sequence.outcome", "crashed")
+            continue
+        w.count("sequence.outcome", "ok")
+        w.count("sequence.inplace", res["impl"]["inplace"])
+        # A after the setter: exact comparison with the model of the setter
+        ra = dict(kind="seq_reassigned", script=script, impl=res["impl"]["reassigned"])
+        oa = res["impl"]["reassigned"]
+        w.add("sequence.reassigned", "chk_basis",
+              ([2] * ncoef, [qf(x) for x in script["newvec"]], [],
+               [(False, Opt(coq_obs(oa)))] if "crashed" not in oa else [(False, Opt(BAD_OBS))]),
+              ra, nontrivial=True)
+        w.count("sequence.judge", "violates" if judge(ra)["violates"] else "ok")
+        # fresh bases built afterwards
+        for tgt, o in zip(res["targets"], res["impl"]["fresh"]):
+            name, theta = tgt["name"], tgt["theta"]
+            fcase = dict(kind="seq_fresh", script=script, target=tgt, name=name, theta=theta, impl=o)
+            aff = AFF.get(name)
+            if name in AFF:
+                tp = theta_prime(name, theta)
+                c, s_ = fr(math.cos(tp)), fr(math.sin(tp))
+            else:
+                c, s_ = Fraction(0), Fraction(0)
+            w.add("sequence.fresh", "chk_named",
+                  (Raw(f'"{name}"'), Opt((Qc(aff[0]), Qc(aff[1]))) if aff else Opt(None), qq(c), qq(s_), coq_obs(o)),
+                  fcase, nontrivial=True, key=("seqfresh", it, name))
+            w.count("sequence.fresh.name", name)
+            w.count("sequence.judge", "violates" if judge(fcase)["violates"] else "ok")
+
     return w.finish(
         rule="coefficients, kappa, probabilities, overhead of the implementation compared inside Coq (Q arithmetic, 1e-12 / 1e-11 on "
              "trigonometric inputs, exact on dyadic coefficient vectors, 2^-53 on quotients) with the model evaluated at the same point; "
@@ -502,6 +629,10 @@ def closed_form(name, theta):
 def invariants(o, where=""):
     """probabilities = |c| / sum|c| ; kappa = sum|c| ; overhead = kappa^2 ; kappa >= 1 is checked by the caller."""
     bad = []
+    if "crashed" in o:
+        return [f"{where}implementation raised {o['crashed']}"]
+    if not obs_finite(o):
+        return [f"{where}non-finite kappa/probabilities/overhead: kappa={o['kappa']!r}"]
     c = np.array(o["coeffs"], dtype=float)
     k = float(np.sum(np.abs(c)))
     if abs(o["kappa"] - k) > 1e-12 * max(1.0, k):
@@ -520,11 +651,20 @@ def invariants(o, where=""):
 def judge(case):
     kind = case.get("kind")
     bad = []
-    if kind == "named":
+    if kind in ("named", "kak", "kakfam", "conj", "seq_fresh") and ("crashed" in case["impl"] or not obs_finite(case["impl"])):
+        return dict(violates=True, detail="; ".join(invariants(case["impl"])))
+    if kind == "seq_reassigned":
+        o = case["impl"]
+        bad += invariants(o, where="after reassigning coeffs: ")
+        if not bad and [float(x) for x in o["coeffs"]] != [float(x) for x in case["script"]["newvec"]]:
+            bad.append("coeffs after assignment differ from the assigned vector")
+    elif kind in ("named", "seq_fresh"):
         o = case["impl"]
         want = closed_form(case["name"], case.get("theta") or 0.0)
         if abs(o["kappa"] - want) > 1e-9:
-            bad.append(f"kappa({case['name']}, theta={case.get('theta')!r}) = {o['kappa']!r}, documented closed form {want!r}")
+            bad.append(f"kappa({case['name']}, theta={case.get('theta')!r}) = {o['kappa']!r}, documented closed form {want!r}"
+                       + (f" (fresh basis built after editing a {case['script']['a_name']} basis: coeffs[{case['script']['k']}] = "
+                          f"{case['script']['x']} in place, then coeffs = {case['script']['newvec']})" if kind == "seq_fresh" else ""))
         if o["kappa"] < 1 - 1e-12:
             bad.append(f"kappa {o['kappa']!r} < 1")
         bad += invariants(o)
@@ -566,13 +706,21 @@ def rerun(case):
     kind = case.get("kind")
     case = dict(case)
     if kind == "named":
-        return run_named(case)
+        return guarded(run_named, case)
     if kind in ("kak", "kakfam", "conj"):
-        k = run_kak(case)
+        k = guarded(run_kak, case)
         k["kind"] = kind
         return k
     if kind == "basis":
         return run_basis(case)
+    if kind == "seq_fresh":
+        r = guarded(run_sequence, dict(script=case["script"], targets=[case["target"]]))
+        case["impl"] = r["impl"] if "crashed" in r["impl"] else r["impl"]["fresh"][0]
+        return case
+    if kind == "seq_reassigned":
+        r = guarded(run_sequence, dict(script=case["script"], targets=[]))
+        case["impl"] = r["impl"] if "crashed" in r["impl"] else r["impl"]["reassigned"]
+        return case
     raise ValueError(kind)
 
 
